@@ -7,7 +7,7 @@
    with a crash after any durable mutation followed by newCore - deliveries of any message ever sent (InstallSnap included) in any
    order and multiplicity, ticks, proposals, AddNode, RemoveNode, SnapshotDone, restarts - under four side conditions:
    (i) one duplicate-free bootstrap membership, (ii) proposals carry no configuration entries, (iii) no node is asked to add
-   itself, weakened in four_clauses_combined_with_refused_self_add to the cases the core refuses, (iv) SnapshotDone as fsm_loop.go
+   itself, DROPPED in four_clauses_combined_unrestricted_self_add (round 15), (iv) SnapshotDone as fsm_loop.go
    issues it (applied position, its term, lastAppliedMembership).
      clause 1, election safety         election_safety_combined
      clause 2, leader completeness     leader_completeness_combined         (logical logs: covered prefix then physical log)
@@ -1703,17 +1703,79 @@ Proof.
 Qed.
 Print Assumptions non_member_leader_guards_partial.
 
+(* ---------------------------------------------------------------- round 15: AddNode of any id, side condition (iii) dropped *)
+From BLB Require Raft.NonMemberPass Raft.MemberSnapSystemX.
+
+(* [FULL] node level, every event and crash point: the statement J (a node whose role is not Follower and whose latest configuration is committed
+   is a member of it) is preserved.  The walk: the follower handlers keep the role Follower; enterCandidate refuses to campaign
+   for a non-member with committed configuration; a candidate that becomes leader keeps configuration and commit index;
+   leaderCommitUpTo steps down when its commit makes a configuration without the leader committed; the configuration set by
+   addNode or removeNode is uncommitted when set; every other handler leaves role, configuration, commit index and id of a
+   non-follower alone or makes it a follower; newCore starts as follower *)
+Theorem non_member_invariant_step :
+  forall s ev k crashed st s',
+    Raft.NonMemberLeader.Jnm s -> run_event_crash (settle s) ev k = Ret (crashed, st, s') -> Raft.NonMemberLeader.Jnm s'.
+Proof. exact Raft.NonMemberPass.non_member_step. Qed.
+Print Assumptions non_member_invariant_step.
+
+(* [FULL] reachable-state invariant over the combined alphabet xstep, in which AddNode may name ANY id, the node's own included: in every
+   reachable state a node whose role is not Follower and whose latest configuration is committed is a member of it; in
+   particular a leader asked to add itself is a member or has an uncommitted configuration, and the core refuses *)
+Theorem non_follower_with_committed_conf_is_member :
+  forall bm be a0 a sched,
+    minitS a0 -> run asys sys_event (Raft.MemberSnapSystemX.xstep bm be) a0 sched a ->
+    forall i s, get_node i (sy_nodes (fst a)) = Some s ->
+      n_role s <> Follower -> latest_conf_committed s = true -> in_latest_conf s = true.
+Proof. exact Raft.MemberSnapSystemX.non_follower_with_committed_conf_is_member_sys. Qed.
+Print Assumptions non_follower_with_committed_conf_is_member.
+
+(* [FULL] the four clauses over the combined alphabet xstep: cstep WITHOUT side condition (iii), AddNode of any id allowed.  By the invariant
+   above every run of xstep is a run of wstep, hence (with another schedule) of cstep; election safety, log matching, leader
+   completeness and state machine safety carry over.  Remaining side conditions: (i) one duplicate-free bootstrap membership,
+   (ii) proposals carry no configuration entries, (iv) SnapshotDone as fsm_loop.go issues it *)
+Theorem four_clauses_combined_unrestricted_self_add :
+  forall bm be, NoDup bm ->
+  (forall a0 a sched,
+     minitS a0 -> run asys sys_event (Raft.MemberSnapSystemX.xstep bm be) a0 sched a ->
+     forall t x y, In (t, x) (sy_hist (fst a)) -> In (t, y) (sy_hist (fst a)) -> x = y) /\
+  (forall a0 a sched,
+     minitS a0 -> run asys sys_event (Raft.MemberSnapSystemX.xstep bm be) a0 sched a ->
+     exists Cf, Raft.MemberSnapSystemU.fitsC a Cf /\
+       forall x y k k' e e',
+         In x (sy_nodes (fst a)) -> In y (sy_nodes (fst a)) ->
+         nth_error (Raft.MemberSnapSystemU.llogC Cf x) k = Some e -> nth_error (Raft.MemberSnapSystemU.llogC Cf y) k' = Some e' ->
+         e_index e = e_index e' -> e_term e = e_term e' ->
+         k = k' /\ firstn (Datatypes.S k) (Raft.MemberSnapSystemU.llogC Cf x) = firstn (Datatypes.S k) (Raft.MemberSnapSystemU.llogC Cf y)) /\
+  (forall a0 a1 a2 sched1 sched2,
+     minitS a0 -> run asys sys_event (Raft.MemberSnapSystemX.xstep bm be) a0 sched1 a1 ->
+     run asys sys_event (Raft.MemberSnapSystemX.xstep bm be) a1 sched2 a2 ->
+     exists Cf1 Cf2, Raft.MemberSnapSystemU.fitsC a1 Cf1 /\ Raft.MemberSnapSystemU.fitsC a2 Cf2 /\
+       forall x b,
+         In x (sy_nodes (fst a1)) -> In b (sy_nodes (fst a2)) -> n_role b = Leader -> p_term (n_p x) < p_term (n_p b) ->
+         (N.to_nat (n_commit x) <= length (Raft.MemberSnapSystemU.llogC Cf1 x))%nat /\
+         firstn (N.to_nat (n_commit x)) (Raft.MemberSnapSystemU.llogC Cf2 b) = firstn (N.to_nat (n_commit x)) (Raft.MemberSnapSystemU.llogC Cf1 x)) /\
+  (forall a0 a1 a2 sched1 sched2,
+     minitS a0 -> run asys sys_event (Raft.MemberSnapSystemX.xstep bm be) a0 sched1 a1 ->
+     run asys sys_event (Raft.MemberSnapSystemX.xstep bm be) a1 sched2 a2 ->
+     forall n1 n2 x y,
+       In n1 (sy_nodes (fst a1)) -> In n2 (sy_nodes (fst a2)) -> In x (n_commits n1) -> In y (n_commits n2) ->
+       e_index x = e_index y -> x = y).
+Proof.
+  intros bm be Hbm.
+  exact (conj (Raft.MemberSnapSystemX.election_safety_combined_x bm be Hbm)
+        (conj (Raft.MemberSnapSystemX.log_matching_combined_x bm be Hbm)
+        (conj (Raft.MemberSnapSystemX.leader_completeness_combined_x bm be Hbm)
+              (Raft.MemberSnapSystemX.state_machine_safety_combined_x bm be Hbm)))).
+Qed.
+Print Assumptions four_clauses_combined_unrestricted_self_add.
+
 (* NOT YET PROVED (statements kept visible; listed in props/C02.json not_yet_proved):
-   the four clauses are proved over the combined alphabet (see the INDEX at the top).  What remains are side conditions of that
-   alphabet which are not theorems about raft.go:
+   the four clauses are proved over the combined alphabet (see the INDEX at the top); side condition (iii) is gone
+   (four_clauses_combined_unrestricted_self_add, round 15: AddNode may name any id).  What remains are three side conditions of
+   the alphabet which are assumptions about the environment of the core, not theorems about raft.go:
    (i) one bootstrap membership without duplicates (an operator action);
    (ii) proposals carry no configuration entries: the public API Raft.Propose takes a byte slice and wraps it into an EntryNormal,
         configuration entries are built only by addNode and removeNode; a fact about Go types, not stated in Coq;
-   (iii) AddNode of the node's own id is covered whenever the core refuses it (add_node_of_self_is_refused,
-        four_clauses_combined_with_refused_self_add); the one excluded case is a leader that is not a member of its latest
-        configuration although that configuration is committed.  On the real code such a leader has stepped down
-        (leader_commit_up_to); the three guards are proved (non_member_leader_guards_partial), the reachable-state invariant
-        assembled from them is not;
    (iv) SnapshotDone is issued as fsm_loop.go issues it: an applied position, its term and lastAppliedMembership; the state machine
         loop is outside the model, so this is an assumption about fsm_loop.go checked by reading it.
    The leader-loop contract (leader_commits_own_suffix_with_reconfiguration) covers AddNode, RemoveNode and SnapshotDone inside the
